@@ -653,8 +653,7 @@ def _template(rng, g):
         if rng.random() < 0.5:
             g.emit(["unversion", d])
         if rng.random() < 0.3:
-            g.emit(["create_dir" if rng.random() < 0.5 else "create_file", *( [d] if rng.random() < 2 else [])]
-                   if False else (["create_dir", d] if rng.random() < 0.5 else ["create_file", "R", d]))
+            g.emit(["create_dir", d] if rng.random() < 0.5 else ["create_file", "R", d])
     elif k == 5 and files:                              # child below a file
         x = rng.choice(files)
         g.emit(["new_file", g.name(), x, "K", g.newfid(), None])
@@ -755,15 +754,20 @@ def corpus():
         [["delete", 3], ["unversion", 3], ["delete", 2], ["unversion", 2]],
         [["unversion", 1], ["delete", 1], ["new_file", "a", 0, "MV", 1, None]],
         [["new_file", "b", 0, "N1", 17, None], ["new_file", "b", 0, "N2", 18, None]],
+        [["adjust", "k", 1, 5], ["delete", 5]],       # deleted but versioned, below a file (finding)
+        [["version", 5, 30]],                         # re-versioning (finding)
+        [["new_file", "x", 2, "N", 19, None], ["unversion", 6]],   # unversion of a new id (finding)
     ]
-    return [{"base": B0, "ops": o} for o in ops]
+    out = [{"base": B0, "ops": o} for o in ops]
+    out.append({"base": B0, "ops": [["new_dir", "n", 0, None], ["new_file", "f", 6, "F", 21, None]], "fmt": "git"})
+    return out
 
 
 def cases(rng, tier):
-    n = 260 if tier == "quick" else 6000
+    n = 260 if tier == "quick" else 3000
     for _ in range(n):
         yield gen_case(rng, tier)
-    ng = 30 if tier == "quick" else 400
+    ng = 30 if tier == "quick" else 200
     for _ in range(ng):
         c = gen_case(rng, tier)
         c["fmt"] = "git"
